@@ -600,6 +600,10 @@ def correspondence(ctx):
     # 2. settings validation grid
     settings_grid(exe, res)
 
+    # 2b. the per-author settings behind author_bypass (real schema field + real PullRequestJob.author_bypass)
+    from . import authoropts
+    authoropts.run(ctx, res, 4000 * scale if ctx.tier == 'quick' else 100000 * scale)
+
     # 3. enumeration
     if ctx.tier == 'thorough':
         universe, cr_universe, options_of = U5, U5, (lambda k: full_options())
